@@ -159,11 +159,20 @@ class Check:
         return ok, names
 
     def _collect_assumptions(self, out):
-        closed = len(re.findall(r"Closed under the global context", out))
+        """Collect the output of Print Assumptions: line scan (an axiom's type may span several lines)."""
+        closed = out.count("Closed under the global context")
         axioms = set()
-        for blk in re.findall(r"Axioms:\n((?:.+\n?)+?)(?=\n\S|\Z)", out + "\n\nX"):
-            for m in re.finditer(r"^([A-Za-z_][\w.']*)\s*:", blk, re.M):
-                axioms.add(m.group(1))
+        in_ax = False
+        for line in out.splitlines():
+            if line.startswith("Axioms:"):
+                in_ax = True
+                continue
+            if in_ax:
+                m = re.match(r"^([A-Za-z_][\w.']*)\s*:", line)
+                if m:
+                    axioms.add(m.group(1))
+                elif line and not line[0].isspace():
+                    in_ax = False
         if closed:
             self.trust("Print Assumptions: %d theorem(s) 'Closed under the global context'" % closed)
         for a in sorted(axioms):
